@@ -326,12 +326,32 @@ pub fn dag(p: DagParams) -> BoxedStrategy<DagSpec> {
         0u8..=2,
         p.min_vars..=p.max_vars,
         vec(node(&p), p.min_nodes..=p.max_nodes),
+        any::<u16>(),
     )
-        .prop_map(|(mode, nvars, nodes)| {
+        .prop_map(|(mode, nvars, nodes, coin)| {
+            // exact coincidences between independently chosen constants: in a
+            // quarter of the programs some constants repeat the previous
+            // constant of the program bit for bit (or its negation)
+            let mut prev: Option<Fl> = None;
+            let mut k = 0u32;
             let nodes = nodes
                 .into_iter()
                 .map(|n| match n {
-                    NodeSpec::C(c) => NodeSpec::C(c),
+                    NodeSpec::C(c) => {
+                        let mut c = c;
+                        if coin % 4 == 0 {
+                            if let Some(q) = prev {
+                                match (coin >> (2 + 2 * (k % 7))) & 3 {
+                                    0 | 1 => c = q,
+                                    2 => c = Fl(-q.0),
+                                    _ => {}
+                                }
+                            }
+                            k += 1;
+                        }
+                        prev = Some(c);
+                        NodeSpec::C(c)
+                    }
                     NodeSpec::U(o, a) => NodeSpec::U(o, shape(mode, a)),
                     NodeSpec::B(o, a, b) => {
                         NodeSpec::B(o, shape(mode, a), shape(mode, b))
@@ -358,4 +378,30 @@ pub fn point(n: usize, f: BoxedStrategy<Fl>) -> BoxedStrategy<Vec<Fl>> {
 pub fn points(npts: std::ops::RangeInclusive<usize>, f: BoxedStrategy<Fl>) -> BoxedStrategy<Vec<Vec<Fl>>> {
     // always 8 coordinates; the first `nvars` are used
     vec(vec(f, 8..=8), npts).boxed()
+}
+
+/// Exact coincidences between inputs and the program's own constants: in every
+/// third point, some coordinates take the value of a constant of the program
+/// bit for bit (a deterministic function of the generated case, so shrinking
+/// and replay are unaffected)
+pub fn coincide(dag: &DagSpec, mut points: Vec<Vec<Fl>>) -> Vec<Vec<Fl>> {
+    let consts: Vec<Fl> = dag
+        .nodes
+        .iter()
+        .filter_map(|n| if let NodeSpec::C(c) = n { Some(*c) } else { None })
+        .collect();
+    if consts.is_empty() {
+        return points;
+    }
+    for (i, p) in points.iter_mut().enumerate() {
+        if i % 3 != 2 {
+            continue;
+        }
+        for (j, v) in p.iter_mut().enumerate() {
+            if (i + j) % 2 == 0 {
+                *v = consts[(i * 7 + j * 3) % consts.len()];
+            }
+        }
+    }
+    points
 }
